@@ -143,6 +143,19 @@ def gen_reads(rng, world, n):
         reads.append({"start": start, "cigar": cig, "seq": "".join(seq), "quals": quals,
                       "mapq": rng.choice(MAPQS), "flag": flag, "name": name,
                       "noqual": rng.random() < 0.03})
+    # reads that enclose the whole gene region (one long deletion / one long match run)
+    for j in range(rng.choice([0, 1, 2])):
+        a0 = lo - rng.randint(5, 40)
+        span = hi - a0 + rng.randint(5, 40)
+        if rng.random() < 0.6:
+            k1, k2 = rng.randint(20, 40), rng.randint(20, 40)
+            cig = [["M", k1], ["D", span - k1], ["M", k2]]
+            seq = contig[a0:a0 + k1] + contig[a0 + span:a0 + span + k2]
+        else:
+            cig = [["M", span]]
+            seq = contig[a0:a0 + span]
+        reads.append({"start": a0, "cigar": cig, "seq": seq, "quals": [rng.choice(QUALS) for _ in seq],
+                      "mapq": rng.choice(MAPQS), "flag": 0, "name": f"g{j}", "noqual": False})
     # a few unmapped and other-contig records
     for j in range(rng.randint(1, 4)):
         reads.append({"start": -1, "cigar": [], "seq": "ACGTACGTAC", "quals": [30] * 10, "mapq": 0,
